@@ -265,6 +265,16 @@ func (p *Parser) parseBuffer(buf []byte, last bool) (err error) {
 	depth := len(p.starts)
 	for off = 0; off < len(buf); off++ {
 		b = buf[off]
+		if 256 < len(p.mode) && p.mode[256] == 't' {
+			switch b {
+			case ':', '[', '{', '/', '"', '\'':
+				// A token continued from an earlier buffer ends here. Handle
+				// that the same way the scan in tokenStart does.
+				p.addToken(off)
+				off--
+				goto deliver
+			}
+		}
 		switch p.mode[b] {
 		case skipNewline:
 			p.line++
@@ -660,6 +670,7 @@ func (p *Parser) parseBuffer(buf []byte, last bool) (err error) {
 		case charErr:
 			return p.byteError(off, p.mode, b, bytes.Runes(buf[off:])[0])
 		}
+	deliver:
 		if depth == 0 && 256 < len(p.mode) && p.mode[256] == 'v' {
 			if p.cb == nil && p.resultChan == nil {
 				p.result = p.stack[0]
